@@ -20,6 +20,7 @@ import (
 	"strings"
 	"sync"
 
+	"go.sia.tech/core/types"
 	"verif/harness/internal/hx"
 	"verif/harness/internal/rng"
 )
@@ -67,7 +68,19 @@ func (e *env) exec(o opSpec) (failed bool, err error) {
 	case "restart":
 		err = e.doRestart(o)
 	case "sleep":
-		e.doSleep()
+		e.doSleep(o)
+	case "pause":
+		e.doPause(o)
+	case "blind":
+		e.doBlind()
+	case "unblind":
+		e.doUnblind(o)
+	case "fault":
+		e.doFault(o)
+	case "window":
+		e.doWindow(o)
+	case "release-foreign":
+		e.doReleaseForeign(o)
 	case "lag":
 		err = e.doLag(o)
 	case "sync":
@@ -135,7 +148,7 @@ func runCase(spec caseSpec) (res caseResult) {
 	res.coq = header + "\n  [" + strings.Join(e.trace, ";\n   ") + "]"
 	res.fails = append(res.fails, e.fails...)
 	res.stats = e.stats
-	res.tainted = e.tainted
+	res.tainted = e.tainted || e.dropCoq
 	res.steps = len(e.trace)
 	return
 }
@@ -406,6 +419,154 @@ func feeOps(r *rng.R, i int) []opSpec {
 	return ops
 }
 
+// genOps: the dimensions of the generalisation pass, one per case in rotation.
+var windowAts = []string{"UnspentSiacoinElements", "PoolTransactions", "V2PoolTransactions", "V2TransactionSet", "AddV2PoolTransactions", "AddBroadcastedSet", "BroadcastV2TransactionSet"}
+var firstReads = []string{"balance", "outputs", "fund", "fund-v1", "redist", "split"}
+
+func genOps(r *rng.R, i int, cfg *cfgSpec, nvals int) (name string, ops []opSpec) {
+	// a SplitUTXO that gets as far as building and submitting its transaction
+	goodSplit := func() opSpec {
+		n := nvals + 1 + r.Intn(2)
+		return opSpec{Kind: "split", N: n, Min: fmt.Sprintf("d%d", n+3)}
+	}
+	fundAmt := func() string { return []string{"p1", "p1-1", "p2", "bal", "1"}[r.Intn(5)] }
+	switch i % 7 {
+	case 0: // class 1: no read call between the operations; then one read API first
+		name = "noread"
+		cfg.Short = (i/7)%2 == 0
+		ops = append(ops, opSpec{Kind: "blind"},
+			opSpec{Kind: "fund", V2: true, Amount: "p1-1"}, opSpec{Kind: "broadcast", Ref: -1, ViaWallet: r.Bool()},
+			opSpec{Kind: "fund", V2: false, Amount: "p2"})
+		if r.Bool() {
+			ops = append(ops, opSpec{Kind: "release", Ref: -1})
+		}
+		if cfg.Short {
+			ops = append(ops, opSpec{Kind: "sleep"}) // the reservations run out, the pool still spends the first input
+		} else {
+			ops = append(ops, opSpec{Kind: "mine", ToWallet: r.Bool()})
+		}
+		ops = append(ops, opSpec{Kind: "fund", V2: r.Bool(), Amount: "p1"}, opSpec{Kind: "fund", V2: true, Amount: "p3"})
+		if r.Bool() {
+			ops = append(ops, opSpec{Kind: "redist", Outputs: 2, Amount: "2" + unit, FeePerB: "0"})
+		}
+		ops = append(ops, opSpec{Kind: "unblind", First: firstReads[(i/7)%len(firstReads)]},
+			opSpec{Kind: "fund", V2: true, Amount: "bal", ThenRelease: true}, opSpec{Kind: "fund", V2: false, Amount: "bal+1"})
+	case 1: // class 2: another goroutine calls the wallet while a call is inside an interface call
+		name = "window"
+		cfg.Short = false
+		cfg.Thresh = 30
+		at := windowAts[(i/7)%len(windowAts)]
+		sub := opSpec{Kind: "fund", V2: r.Bool(), Amount: fundAmt()}
+		switch {
+		case at == "V2TransactionSet" || at == "AddV2PoolTransactions" || at == "AddBroadcastedSet" || at == "BroadcastV2TransactionSet":
+			sub = goodSplit()
+		case r.Chance(1, 4):
+			sub = opSpec{Kind: "redist", Outputs: 1 + r.Intn(3), Amount: fmt.Sprint(2+r.Intn(9)) + unit, FeePerB: "0"}
+		}
+		inner := opSpec{Kind: "fund", V2: r.Bool(), Amount: []string{"p1", "bal", "p1-1", "1"}[r.Intn(4)]}
+		if r.Chance(1, 4) {
+			inner = opSpec{Kind: "release", Ref: -1}
+		}
+		if r.Bool() {
+			ops = append(ops, opSpec{Kind: "fund", V2: true, Amount: "p1-1"})
+		}
+		ops = append(ops, opSpec{Kind: "window", At: at, Sub: &sub, Inner: &inner},
+			opSpec{Kind: "broadcast", Ref: -1}, opSpec{Kind: "broadcast", Ref: -2},
+			opSpec{Kind: "fund", V2: true, Amount: "bal", ThenRelease: true})
+		sub2 := opSpec{Kind: "fund", V2: true, Amount: "bal"}
+		inner2 := opSpec{Kind: "fund", V2: false, Amount: "bal"}
+		ops = append(ops, opSpec{Kind: "window", At: "PoolTransactions", Sub: &sub2, Inner: &inner2}, opSpec{Kind: "mine"})
+	case 2: // class 3: an interface call fails in the middle of a call
+		name = "fault"
+		cfg.Thresh = 30
+		at := []string{"UnspentSiacoinElements", "V2TransactionSet", "AddV2PoolTransactions", "BroadcastV2TransactionSet", "AddBroadcastedSet"}[(i/7)%5]
+		sub := goodSplit()
+		if at == "UnspentSiacoinElements" {
+			sub = []opSpec{{Kind: "fund", V2: true, Amount: "p1"}, {Kind: "fund", Amount: "bal"}, {Kind: "redist", Outputs: 2, Amount: "3" + unit, FeePerB: "0"}, sub}[r.Intn(4)]
+		}
+		if r.Bool() {
+			ops = append(ops, opSpec{Kind: "fund", V2: true, Amount: "p1-1"})
+		}
+		ops = append(ops, opSpec{Kind: "fault", At: at, Sub: &sub},
+			opSpec{Kind: "fund", V2: true, Amount: "bal", ThenRelease: true}, opSpec{Kind: "fund", V2: false, Amount: "bal+1"},
+			opSpec{Kind: "mine"}, opSpec{Kind: "fund", V2: true, Amount: "bal", ThenRelease: true})
+	case 3: // class 4: illegal and extreme arguments
+		name = "extreme"
+		ops = append(ops,
+			opSpec{Kind: "fund", V2: r.Bool(), Amount: "max", Unc: r.Bool()}, opSpec{Kind: "fund", V2: r.Bool(), Amount: "half"},
+			opSpec{Kind: "fund", V2: r.Bool(), Amount: "p1", Existing: 100 + r.Intn(200), ThenRelease: true},
+			opSpec{Kind: "split", N: -1 - r.Intn(5), Min: "1" + unit}, opSpec{Kind: "split", N: 1000000, Min: "1" + unit}, opSpec{Kind: "split", N: 3, Min: "max"},
+			opSpec{Kind: "redist", Outputs: 0, Amount: "2" + unit, FeePerB: "0"}, opSpec{Kind: "redist", Outputs: -5, Amount: "2" + unit, FeePerB: "1"},
+			opSpec{Kind: "redist", Outputs: 100000, Amount: "2" + unit, FeePerB: "0"}, opSpec{Kind: "release", Ref: -1}, opSpec{Kind: "release", Ref: -2},
+			opSpec{Kind: "release-foreign", N: 0, V2: r.Bool()}, opSpec{Kind: "release-foreign", N: 1 + r.Intn(4)},
+			opSpec{Kind: "fund", V2: true, Amount: "p1"}, opSpec{Kind: "release-foreign", N: 2}, opSpec{Kind: "fund", V2: false, Amount: "bal", ThenRelease: true})
+		if redistGuards().overflowSafe {
+			ops = append(ops, opSpec{Kind: "redist", Outputs: 3, Amount: "max", FeePerB: "0"}, opSpec{Kind: "redist", Outputs: 3, Amount: "half", FeePerB: "1"}, opSpec{Kind: "redist", Outputs: 2, Amount: "1" + unit, FeePerB: "max"})
+		}
+		if redistGuards().zeroAmountRefused {
+			ops = append(ops, opSpec{Kind: "redist", Outputs: 12, Amount: "0", FeePerB: "0"})
+		}
+	case 4: // class 5: the same transaction object is funded again, then signed and submitted
+		name = "refund"
+		cfg.Short = false
+		v2 := r.Bool()
+		ops = append(ops, opSpec{Kind: "fund", V2: v2, Amount: "p1-1"}, opSpec{Kind: "fund", V2: v2, Amount: []string{"1", "p1", "p2-1"}[r.Intn(3)], Into: -1})
+		if r.Bool() {
+			ops = append(ops, opSpec{Kind: "fund", V2: v2, Amount: "2", Into: -1})
+		}
+		ops = append(ops, opSpec{Kind: "broadcast", Ref: -1, ViaWallet: r.Bool()}, opSpec{Kind: "fund", V2: !v2, Amount: "p1"}, opSpec{Kind: "fund", V2: !v2, Amount: "1", Into: -1},
+			opSpec{Kind: "release", Ref: -1}, opSpec{Kind: "mine"}, opSpec{Kind: "fund", V2: true, Amount: "bal", ThenRelease: true})
+	case 5: // class 7: some reservations have run out, others have not
+		name = "partial-expiry"
+		cfg.Short = true
+		ops = append(ops, opSpec{Kind: "fund", V2: r.Bool(), Amount: "p1"}, opSpec{Kind: "pause", Ms: 35}, opSpec{Kind: "fund", V2: r.Bool(), Amount: "p1"},
+			opSpec{Kind: "sleep", Partial: true}, opSpec{Kind: "fund", V2: true, Amount: "bal", ThenRelease: true}, opSpec{Kind: "fund", V2: false, Amount: "bal+1"},
+			opSpec{Kind: "sleep"}, opSpec{Kind: "fund", V2: true, Amount: "bal", ThenRelease: true})
+	default: // class 7: option values outside the usual range
+		name = "option-spread"
+		cfg.Thresh = []int{-1, 1000, 0, 2}[r.Intn(4)]
+		cfg.MaxIn = []int{-1, 1, 1000, 3}[r.Intn(4)]
+		cfg.MaxDefrag = []int{1000, 0, 3, 1}[r.Intn(4)]
+		cfg.Short = false
+		for _, a := range []string{"1", "p1", "p1+1", "p2", "bal", "bal+1"} {
+			ops = append(ops, opSpec{Kind: "fund", V2: r.Bool(), Amount: a, ThenRelease: true, Existing: []int{0, 0, 1, 2}[r.Intn(4)]})
+		}
+		for _, n := range []int{10, 11, 20, 21} {
+			ops = append(ops, opSpec{Kind: "redist", Outputs: n, Amount: "1" + unit, FeePerB: "0"}, opSpec{Kind: "release", Ref: -1}, opSpec{Kind: "release", Ref: -2}, opSpec{Kind: "release", Ref: -3})
+		}
+	}
+	return
+}
+
+// redistGuards: does Redistribute on this tree refuse a zero amount, and does it
+// survive amounts whose arithmetic overflows? (Both are reported separately as
+// proposed repairs; the arguments are only generated on a tree that handles them.)
+type guards struct{ zeroAmountRefused, overflowSafe bool }
+
+var guardsOnce sync.Once
+var guardsVal guards
+
+func redistGuards() guards {
+	guardsOnce.Do(func() {
+		e, err := newEnv(caseSpec{Name: "probe", Cfg: cfgSpec{Thresh: 30, MaxIn: 30, MaxDefrag: 10}, Setup: setupSpec{Values: []string{"50" + unit, "20" + unit}, Seed: 99}})
+		if err != nil {
+			return
+		}
+		defer e.close()
+		if e.setup() != nil {
+			return
+		}
+		raw := e.callRedist(2, types.ZeroCurrency, types.ZeroCurrency)
+		guardsVal.zeroAmountRefused = raw.panicked == nil && raw.err != nil
+		if raw.err == nil {
+			e.w.ReleaseInputs(nil, raw.txns)
+		}
+		guardsVal.overflowSafe = e.callRedist(3, maxCurrency, types.ZeroCurrency).panicked == nil &&
+			e.callRedist(2, parseCur("1"+unit), maxCurrency).panicked == nil
+	})
+	return guardsVal
+}
+
 // c07Corpus: minimised earlier failures, run first.
 func c07Corpus() []caseSpec {
 	v := func(ks ...int) []string {
@@ -543,7 +704,7 @@ func runC07(c *hx.Ctx) {
 
 	var specs []caseSpec
 	specs = append(specs, c07Corpus()...)
-	nGrid, nRand, nTies := c.Scale(128, 1280), c.Scale(95, 3000), c.Scale(35, 800)
+	nGrid, nRand, nTies := c.Scale(128, 1280), c.Scale(70, 3000), c.Scale(30, 800)
 	for i := 0; i < nGrid; i++ {
 		r := c.R.Fork()
 		s := caseSpec{Name: fmt.Sprintf("grid-%d", i), Cfg: gridCfg(i + int(c.Seed)), Setup: genSetup(r, false, 8), Probe: r.Chance(1, 3)}
@@ -615,6 +776,34 @@ func runC07(c *hx.Ctx) {
 		specs = append(specs, s)
 	}
 
+	nGen := c.Scale(70, 700)
+	if os.Getenv("C07_NO_GEN") != "" {
+		nGen = 0 // diagnostic only: shows which mutants the older streams catch by themselves
+	}
+	for i := 0; i < nGen; i++ {
+		r := c.R.Fork()
+		s := caseSpec{Cfg: gridCfg(r.Intn(128)), Setup: genSetup(r, false, 7)}
+		if len(s.Setup.Values) < 4 {
+			s.Setup.Values = []string{"211" + unit, "97" + unit, "55" + unit, "30" + unit, "12" + unit}
+		}
+		// one output large enough to be split (SplitUTXO's fee estimate is 200e20 here)
+		s.Setup.Values = append(s.Setup.Values, fmt.Sprint(3000+r.Intn(3000))+unit, fmt.Sprint(6000+r.Intn(3000))+unit)
+		var nm string
+		nm, s.Ops = genOps(r, i+int(c.Seed)*7, &s.Cfg, len(s.Setup.Values))
+		s.Name = fmt.Sprintf("gen-%s-%d", nm, i)
+		s.Probe = nm == "fault" || nm == "extreme"
+		specs = append(specs, s)
+	}
+	g := redistGuards()
+	if !g.zeroAmountRefused {
+		res.Notes = append(res.Notes, "Redistribute(amount = 0) is accepted on this tree and returns transactions with zero-value outputs no pool accepts: reported as a proposed repair, the argument is not generated")
+		res.Count("extreme:redistribute-zero-amount-not-generated")
+	}
+	if !g.overflowSafe {
+		res.Notes = append(res.Notes, "Redistribute with an amount or fee rate near 2^128 panics (overflow) on this tree: reported as a proposed repair, the arguments are not generated")
+		res.Count("extreme:redistribute-overflow-not-generated")
+	}
+
 	results := make([]caseResult, len(specs))
 	var wg sync.WaitGroup
 	next := make(chan int)
@@ -682,7 +871,7 @@ func runC07(c *hx.Ctx) {
 	for i := 0; i < 2 && i < len(results); i++ {
 		res.Sample(map[string]any{"case": results[len(c07Corpus())+i].spec})
 	}
-	res.Explored = map[string]any{"option_grid": "4x4x4x2 (every combination at least once in the grid stream)", "grid_cases": nGrid, "random_cases": nRand, "tie_cases": nTies, "store_behind_manager_cases": nLag, "outstanding_unconfirmed_cases": nUnc, "redistribute_fee_cases": nFee, "fee_rates_per_byte": feeRates, "change_targets": changeTargets, "store_behind_by_blocks": "1, 5, 40"}
+	res.Explored = map[string]any{"option_grid": "4x4x4x2 (every combination at least once in the grid stream)", "grid_cases": nGrid, "random_cases": nRand, "tie_cases": nTies, "store_behind_manager_cases": nLag, "outstanding_unconfirmed_cases": nUnc, "generalisation_cases": nGen, "redistribute_fee_cases": nFee, "fee_rates_per_byte": feeRates, "change_targets": changeTargets, "store_behind_by_blocks": "1, 5, 40"}
 	soak(c)
 	// several small files: bin/check evaluates them in parallel, and Coq's
 	// elaboration of the literal case terms dominates the cost
